@@ -90,7 +90,37 @@ def gen(ctx):
             for _ in range(r.randint(1, 6)):
                 items.append(None if r.random() < 0.5 else r.choice([lo, hi, 0, 1, hi - 1, r.randint(lo, hi), hi + 1, lo - 1]))
             L.append(("enum 0 %s %s" % (ty, ",".join("_" if x is None else str(x) for x in items)), "enum", (ty, items)))
+    # bit_flags enums: positions on both sides of the bit width, explicit (decimal and hex) and reached by auto-numbering
+    for ty, (lo, hi) in TYPES.items():
+        w = hi.bit_length() + (1 if lo < 0 else 0)
+        cases = [[w - 2], [w - 1], [w], [w + 1], [0, w], [0, w - 1], [w - 2, None], [w - 1, None], [w - 3, None, None], [w - 2, None, None],
+                 [None, None, None], [None, w - 1, None], [5, 2, None], [hex(w)], [hex(w - 1)], [0, hex(w)], [2**32], [2**64 - 1], [-1], [0, 0]]
+        for _ in range(6 if ctx.quick() else 100):
+            cases.append([None if r.random() < 0.5 else r.choice([0, 1, w - 2, w - 1, w, r.randrange(w), r.randrange(70)]) for _ in range(r.randint(1, 5))])
+        for items in cases:
+            L.append(("enum 2 %s %s" % (ty, ",".join("_" if x is None else str(x) for x in items)), "flags", (ty, items)))
     return L
+
+
+def spec_flags(ty, items, out):
+    """independent oracle: member value = 1 << position, position explicit (unsigned) or previous position + 1; accepted iff
+    every position is below the bit width and every flag value is representable in the underlying type"""
+    lo, hi = TYPES[ty]
+    w = hi.bit_length() + (1 if lo < 0 else 0)
+    vals, prev = [], None
+    for it in items:
+        if it is None: pos = 0 if prev is None else prev + 1
+        else:
+            pos = int(it, 16) if isinstance(it, str) else it
+            if pos < 0:
+                return None if out == "reject" else "negative bit_flags position accepted: %s" % out
+        if pos >= w or not (lo <= (1 << pos) <= hi):
+            return None if out == "reject" else "bit_flags position %d accepted for %s (%d bits): %s" % (pos, ty, w, out)
+        vals.append(1 << pos); prev = pos
+    exp = "ok " + ",".join(str(v) for v in vals)
+    if out == exp: return None
+    if out.startswith("ok") and sorted(out[3:].split(","), key=int) == sorted(exp[3:].split(","), key=int): return None
+    return "bit_flags values differ: expected %s got %s" % (exp, out)
 
 
 def spec_enum(ty, items, out):
@@ -132,7 +162,7 @@ def run(ctx):
     known = [f for f in load_known() if f["property"] == "C08" and f["status"] == "known"]
     spec_fail, known_hit = [], {}
     for i, (l, kind, meta) in enumerate(items):
-        why = spec_lit(meta[0], meta[1], meta[2], out_c[i]) if kind == "lit" else spec_enum(meta[0], meta[1], out_c[i])
+        why = spec_lit(meta[0], meta[1], meta[2], out_c[i]) if kind == "lit" else spec_flags(meta[0], meta[1], out_c[i]) if kind == "flags" else spec_enum(meta[0], meta[1], out_c[i])
         if why:
             # known finding: silent sign change for negative magnitudes above 2^63
             if kind == "lit" and meta[1].startswith("-") and meta[1] not in ("true", "false") and abs(tok_value(meta[1])) > 2**63 and abs(tok_value(meta[1])) < 2**64 \
@@ -158,12 +188,13 @@ def run(ctx):
     ctx.cov.update({"evaluations": len(lines), "distinct_nontrivial": len(set(lines)),
                     "rule": "one-field schemas `table T { x:<type> = <literal>; }` for the 8 integer types and bool x the boundary grid (0, +-1, each MIN/MAX +-2, "
                             "2^63, 2^64 +-2, 10*2^64, 20-digit wrap values) in decimal / hex / upper-case hex / leading-zero spellings, true/false, with and without "
-                            "boolean conversion; enums of every underlying type auto-incrementing from boundary starts and with random explicit values. Compiled by "
+                            "boolean conversion; enums of every underlying type auto-incrementing from boundary starts and with random explicit values; bit_flags enums "
+                            "with positions on both sides of the bit width (explicit decimal / hex, reached by auto-numbering, the sign bit of signed types). Compiled by "
                             "the real compiler in-process (ASan/UBSan); accept/reject and the default / enum values read back from the generated binary schema vs the model "
                             "and an independent big-integer oracle.",
                     "results": res, "traces_validated_against_impl": len(lines), "correspondence_disagreements": len(idx),
                     "spec_oracle_failures": len(spec_fail), "known_findings": list(known_hit)})
     ctx.samples = [{"op": lines[i], "token": str(items[i][2]), "c": out_c[i], "model": out_m[i]} for i in (0, len(lines) // 3, len(lines) - 1)]
-    ctx.notes = ["float literals and float/double targets are not modelled (strtod); bit_flags, fixed array lengths and force_align values are exercised under C07",
+    ctx.notes = ["float literals and float/double targets are not modelled (strtod); fixed array lengths and force_align values are exercised under C07",
                  "generated reader defaults / enum constants are compared through the binary schema, which C20 ties to the generated C code"]
     finish(ctx, ths)
